@@ -83,7 +83,8 @@ struct Ent
 }
 
 #[derive(Clone, Debug)]
-struct Reg { inst: Inst, refcounted: bool, handles: usize }
+struct Reg { inst: Inst, refcounted: bool, handles: usize, /// handles that may or may not have been released already (a revoke raced an invisible poll)
+    uncertain: usize }
 
 #[derive(Clone, Debug)]
 struct InstM
@@ -96,6 +97,8 @@ struct InstM
     alive: bool,
     /// ref-count reached zero: will be gone after the next garbage collection
     doomed: bool,
+    /// its last handle may or may not have been released (a revoke raced an invisible poll): alive or collected, unknown
+    limbo: bool,
     busy: bool,
     runs: u32,
     once_fired: bool,
@@ -178,7 +181,7 @@ struct Polled
     /// reactors registered when the event happened (despawn: with the registration whose handle the reaction holds)
     must: Vec<(Inst, Option<RegId>)>,
     /// reactors that may react although they need not: revoked since, or entity-scoped on an entity that was despawned
-    extra: Vec<Inst>,
+    extra: Vec<(Inst, Option<RegId>)>,
     delivered: Vec<Inst>,
     in_tree: bool,
     /// deadline passed: only reactors registered later may still be told (N4)
@@ -254,6 +257,7 @@ pub struct Checker<'a>
     wr_keys: [Vec<MTrig>; 2],
     sigs: Vec<(Option<EntId>, usize)>,
     doomed_ents: Vec<EntId>,
+    resolve_uncertain: Vec<RegId>,
     /// per (sender, target): last consumed sequence number
     fifo: HashMap<((u8, u32), Inst), u64>,
     gc_guaranteed_this_step: bool,
@@ -277,7 +281,7 @@ impl<'a> Checker<'a>
     pub fn new(prog: &'a Program, trace: &'a [Ev], hooks: bool) -> Self
     {
         let insts = prog.insts.iter().map(|d| InstM {
-            origin: d.origin, flavour: d.flavour, known: false, created: false, alive: false, doomed: false, busy: false, runs: 0,
+            origin: d.origin, flavour: d.flavour, known: false, created: false, alive: false, doomed: false, limbo: false, busy: false, runs: 0,
             once_fired: false, real: None, canary: false, revoked_keys: Vec::new(), kinds_this_tree: 0,
         }).collect();
         Checker {
@@ -285,7 +289,7 @@ impl<'a> Checker<'a>
             ents: Vec::new(), slots: Vec::new(), insts, regs: Vec::new(), tables: HashMap::new(),
             tokens: vec![None; prog.insts.len()], res: [0, 0], payloads: HashMap::new(), pending_immediate_drop: None,
             polled: Vec::new(), postponed: Vec::new(), stack: Vec::new(), tree_depth: 0, seq: 0, sender: (DRIVER, 0),
-            wr_keys: [Vec::new(), Vec::new()], sigs: vec![(None, 0); 4], doomed_ents: Vec::new(), fifo: HashMap::new(),
+            wr_keys: [Vec::new(), Vec::new()], sigs: vec![(None, 0); 4], doomed_ents: Vec::new(), resolve_uncertain: Vec::new(), fifo: HashMap::new(),
             gc_guaranteed_this_step: false, in_direct_step: false, sys: Default::default(),
         }
     }
@@ -349,7 +353,7 @@ impl<'a> Checker<'a>
                 for (inst, optional) in &p.unresolved
                 {
                     let t = &self.insts[*inst as usize];
-                    if t.alive && !t.doomed && !*optional
+                    if t.alive && !t.doomed && !t.limbo && !*optional
                     {
                         if !last_chance { return Ok(false); }
                         self.pos = fpos;
@@ -363,7 +367,7 @@ impl<'a> Checker<'a>
             Ev::Canary(i) =>
             {
                 let t = &self.insts[*i as usize];
-                if t.alive && !t.doomed
+                if t.alive && !t.doomed && !t.limbo
                 {
                     if !last_chance { return Ok(false); }
                     self.pos = fpos;
@@ -509,7 +513,8 @@ impl<'a> Checker<'a>
         if r.refcounted && r.handles == 0
         {
             let i = r.inst as usize;
-            if self.insts[i].alive && !self.insts[i].doomed { self.insts[i].doomed = true; self.stats.doomed_insts += 1; }
+            if r.uncertain > 0 { if self.insts[i].alive && !self.insts[i].doomed { self.insts[i].limbo = true; } }
+            else if self.insts[i].alive && !self.insts[i].doomed { self.insts[i].doomed = true; self.insts[i].limbo = false; self.stats.doomed_insts += 1; }
         }
     }
 
@@ -517,7 +522,7 @@ impl<'a> Checker<'a>
     {
         self.stats.registrations += 1;
         let refcounted = mode != Mode::Persistent;
-        self.regs.push(Reg { inst, refcounted, handles: 0 });
+        self.regs.push(Reg { inst, refcounted, handles: 0, uncertain: 0 });
         let reg = self.regs.len() - 1;
         for t in trigs
         {
@@ -525,7 +530,7 @@ impl<'a> Checker<'a>
             {
                 MTrig::Tw(k) =>
                 {
-                    if let Key::Rem(c) = k { for p in self.polled.iter_mut() { if matches!(p.kind, PKind::Removal(c2) if c2 == c) { p.extra.push(inst); } } }
+                    if let Key::Rem(c) = k { for p in self.polled.iter_mut() { if matches!(p.kind, PKind::Removal(c2) if c2 == c) { p.extra.push((inst, None)); } } }
                     let v = self.tables.entry(k).or_default();
                     v.push((inst, reg));
                     if v.len() >= 7 { self.stats.reactors_per_key_ge7 += 1; }
@@ -538,7 +543,7 @@ impl<'a> Checker<'a>
                         self.ents[e].ereg.push(EReg { kind, inst, reg });
                         self.regs[reg].handles += 1;
                         // a removal that has not been polled yet may be reported to a reactor registered meanwhile (N4)
-                        if let EKind::Rem(c) = kind { for p in self.polled.iter_mut() { if matches!(p.kind, PKind::Removal(c2) if c2 == c) && p.ent == e { p.extra.push(inst); } } }
+                        if let EKind::Rem(c) = kind { for p in self.polled.iter_mut() { if matches!(p.kind, PKind::Removal(c2) if c2 == c) && p.ent == e { p.extra.push((inst, None)); } } }
                     }
                     else { self.stats.reg_dead_entity += 1; }
                 }
@@ -597,11 +602,17 @@ impl<'a> Checker<'a>
                         if let Some(pos) = p.must.iter().position(|(i, _)| *i == inst)
                         {
                             let (i, reg) = p.must.remove(pos);
-                            p.extra.push(i);
+                            p.extra.push((i, reg));
                             if let Some(r) = reg { dropped.push(r); }
                         }
                     }
-                    for r in dropped { self.drop_handle(r); }
+                    for r in dropped
+                    {
+                        let reg = &mut self.regs[r];
+                        reg.handles = reg.handles.saturating_sub(1);
+                        reg.uncertain += 1;
+                        if reg.refcounted && reg.handles == 0 { let i = reg.inst as usize; if self.insts[i].alive && !self.insts[i].doomed { self.insts[i].limbo = true; } }
+                    }
                 }
             }
             // a removal reactor revoked while a removal event is pending: if it was already scheduled it still runs (C06)
@@ -612,13 +623,13 @@ impl<'a> Checker<'a>
                 {
                     if !matches!(p.kind, PKind::Removal(c2) if c2 == c) { continue; }
                     if let Some(e) = ent { if p.ent != e { continue; } }
-                    if let Some(pos) = p.must.iter().position(|(i, _)| *i == inst) { p.must.remove(pos); p.extra.push(inst); }
+                    if let Some(pos) = p.must.iter().position(|(i, _)| *i == inst) { p.must.remove(pos); p.extra.push((inst, None)); }
                 }
             }
         }
     }
 
-    fn raise(&mut self, kind: PKind, ent: EntId, must: Vec<(Inst, Option<RegId>)>, extra: Vec<Inst>)
+    fn raise(&mut self, kind: PKind, ent: EntId, must: Vec<(Inst, Option<RegId>)>, extra: Vec<(Inst, Option<RegId>)>)
     {
         self.stats.polled_events += 1;
         let in_tree = self.tree_depth > 0;
@@ -635,12 +646,25 @@ impl<'a> Checker<'a>
             if self.ents[e].comp[c.idx()].take().is_some()
             {
                 let must: Vec<(Inst, Option<RegId>)> = self.tables.get(&Key::Rem(c)).map(|v| v.iter().map(|(i, _)| (*i, None)).collect()).unwrap_or_default();
-                let may: Vec<Inst> = self.ents[e].ereg.iter().filter(|r| r.kind == EKind::Rem(c)).map(|r| r.inst).collect();
+                let may: Vec<(Inst, Option<RegId>)> = self.ents[e].ereg.iter().filter(|r| r.kind == EKind::Rem(c)).map(|r| (r.inst, None)).collect();
                 self.raise(PKind::Removal(c), e, must, may);
             }
         }
         let ereg = std::mem::take(&mut self.ents[e].ereg);
-        for r in ereg { self.drop_handle(r.reg); }
+        for r in ereg
+        {
+            // an entity-scoped removal reactor loses its registration with the entity: it need not react to removals
+            // still pending for it (N4), though it may if the poll already happened
+            if let EKind::Rem(c) = r.kind
+            {
+                for p in self.polled.iter_mut()
+                {
+                    if !matches!(p.kind, PKind::Removal(c2) if c2 == c) || p.ent != e { continue; }
+                    if let Some(pos) = p.must.iter().position(|(i, _)| *i == r.inst) { p.must.remove(pos); p.extra.push((r.inst, None)); }
+                }
+            }
+            self.drop_handle(r.reg);
+        }
         if !self.ents[e].watchers.is_empty()
         {
             // the pending event now owns the watchers (and their handles)
@@ -784,7 +808,8 @@ impl<'a> Checker<'a>
     /// Events for which the reactor must react are served before events it merely may be told about.
     fn find_polled(&self, inst: Inst, s: &Sample) -> Option<usize>
     {
-        for pass in 0..2
+        // pass 0: obligations whose deadline is the end of the current tree; pass 1: other obligations; pass 2: optional
+        for pass in 0..3
         {
             for (i, p) in self.polled.iter().enumerate()
             {
@@ -795,10 +820,11 @@ impl<'a> Checker<'a>
                 };
                 if !hit { continue; }
                 let must = !p.closed && p.must.iter().any(|(m, _)| *m == inst);
-                if pass == 0 { if must { return Some(i); } continue; }
+                if pass == 0 { if must && p.in_tree { return Some(i); } continue; }
+                if pass == 1 { if must { return Some(i); } continue; }
                 // one reaction per registration: a reactor registered entity-scoped and type-wide reacts twice
                 let done = p.delivered.iter().filter(|d| **d == inst).count();
-                let eligible = p.extra.contains(&inst)
+                let eligible = p.extra.iter().any(|(m, _)| *m == inst)
                     || match p.kind { PKind::Removal(c) => self.removal_listeners_now(p.ent, c).iter().filter(|l| **l == inst).count() > done, PKind::Despawn => false };
                 if eligible { return Some(i); }
             }
@@ -813,7 +839,12 @@ impl<'a> Checker<'a>
         let (kind, ent) = (self.polled[i].kind.clone(), self.polled[i].ent);
         let holds = self.polled[i].must.iter().find(|(m, _)| *m == inst).and_then(|(_, r)| *r);
         if let Some(pos) = self.polled[i].must.iter().position(|(m, _)| *m == inst) { self.polled[i].must.remove(pos); }
-        else if let Some(pos) = self.polled[i].extra.iter().position(|m| *m == inst) { self.polled[i].extra.remove(pos); }
+        else if let Some(pos) = self.polled[i].extra.iter().position(|(m, _)| *m == inst)
+        {
+            // the reaction whose handle was uncertain did run: its handle is released (for certain) when it completes
+            let (_, reg) = self.polled[i].extra.remove(pos);
+            if let Some(r) = reg { self.resolve_uncertain.push(r); }
+        }
         let cause = match kind { PKind::Removal(c) => Cause::Rem(c, ent), PKind::Despawn => Cause::Despawn(ent) };
         self.stats.polled_reactions += 1;
         // a polled reaction is a command of its own: it is not "sent" by the run that happens to be active
@@ -837,7 +868,7 @@ impl<'a> Checker<'a>
             {
                 let t = &self.insts[*inst as usize];
                 let still_registered = match p.kind { PKind::Removal(c) => self.removal_listeners_now(p.ent, c).contains(inst), PKind::Despawn => true };
-                if t.alive && !t.doomed && !t.busy && still_registered
+                if t.alive && !t.doomed && !t.limbo && !t.busy && still_registered
                 {
                     let ev = self.peek()?.cloned();
                     let cause = match p.kind { PKind::Removal(c) => Cause::Rem(c, p.ent), PKind::Despawn => Cause::Despawn(p.ent) };
@@ -1011,7 +1042,7 @@ impl<'a> Checker<'a>
                 let t = &self.insts[inst as usize];
                 if t.busy { fail!(self, "C09", "postponed-ran-too-early", &["C02"], "instance {inst} ran for {:?} while it is already executing", d.cause); }
                 if !t.alive { fail!(self, "C18", "ran-dead-target", &["C07", "C02"], "instance {inst} ran for {:?} after it was despawned", d.cause); }
-                if d.optional || t.doomed { self.stats.optional_taken += 1; }
+                if d.optional || t.doomed || t.limbo { self.stats.optional_taken += 1; }
                 self.tree_depth += 1;
                 if root { self.stats.roots += 1; for t in self.insts.iter_mut() { t.kinds_this_tree = 0; } }
                 self.run(d, e, root)?;
@@ -1057,7 +1088,7 @@ impl<'a> Checker<'a>
                 {
                     let t = &mut self.insts[i as usize];
                     // a ref-counted system with no trigger left is collected even while it is executing
-                    if t.alive && t.doomed { t.alive = false; }
+                    if t.alive && (t.doomed || t.limbo) { t.alive = false; }
                     let t = &self.insts[i as usize];
                     if t.alive
                     {
@@ -1146,6 +1177,9 @@ impl<'a> Checker<'a>
         let excl = def.flavour == Flavour::Exclusive;
         if excl { self.stats.excl_bodies += 1; }
         if let Origin::EntityWorld(k) = def.origin { self.ewr_local(inst, k, &d)?; }
+        let mut held = d.holds;
+        // an exclusive system's cleanup is the first command on the world queue: it runs at the first flush inside the body
+        if excl { if let Some(reg) = held.take() { self.drop_handle(reg); } }
         let script: &'a [Op] = prog.insts[ti].script(n);
         let (issued, err) = self.issue_script(script, inst, n, excl)?;
         match self.peek()?
@@ -1155,7 +1189,17 @@ impl<'a> Checker<'a>
         }
         if err { self.stats.err_returns += 1; }
         // a despawn reaction's handle is released by the cleanup that runs between the body and its commands
-        if let Some(reg) = d.holds { self.drop_handle(reg); }
+        if let Some(reg) = held { self.drop_handle(reg); }
+        for r in std::mem::take(&mut self.resolve_uncertain)
+        {
+            let reg = &mut self.regs[r];
+            reg.uncertain = reg.uncertain.saturating_sub(1);
+            if reg.refcounted && reg.handles == 0 && reg.uncertain == 0
+            {
+                let i = reg.inst as usize;
+                if self.insts[i].alive && !self.insts[i].doomed { self.insts[i].doomed = true; self.insts[i].limbo = false; self.stats.doomed_insts += 1; }
+            }
+        }
         self.apply_issued(issued)?;
         self.sender = saved_sender;
         self.stack.pop();
@@ -1193,7 +1237,7 @@ impl<'a> Checker<'a>
         if let Some(p) = self.postponed.iter().find(|p| p.target == inst && p.blocked_by == n)
         {
             let p = p.clone();
-            if self.insts[ti].alive && !self.insts[ti].doomed
+            if self.insts[ti].alive && !self.insts[ti].doomed && !self.insts[ti].limbo
             {
                 fail!(self, "C09", "postponed-ran-too-late", &["C02"], "delivery {:?} postponed for instance {inst} did not run when the execution that blocked it completed", p.cause);
             }
@@ -1800,7 +1844,7 @@ impl<'a> Checker<'a>
             let t = &self.insts[i];
             let Some(alive) = obs else { continue };
             if !t.known { continue; }
-            if t.alive && !t.doomed && !*alive
+            if t.alive && !t.doomed && !t.limbo && !*alive
             {
                 let persistent = !self.regs.iter().any(|r| r.inst == i as Inst && r.refcounted);
                 if persistent { fail!(self, "C07", "persistent-despawned", &["C16", "C13"], "instance {i} is gone after step {step} although nothing despawned it"); }
@@ -1819,7 +1863,7 @@ impl<'a> Checker<'a>
         for i in 0..self.insts.len()
         {
             // a doomed instance that is observed dead stays dead
-            if let Some(Some(false)) = post.insts.get(i) { if self.insts[i].doomed { self.insts[i].alive = false; } }
+            if let Some(Some(false)) = post.insts.get(i) { if self.insts[i].doomed || self.insts[i].limbo { self.insts[i].alive = false; } }
         }
         // slots
         for (s, (alive, a, b)) in post.slots.iter().enumerate()
@@ -1843,8 +1887,8 @@ impl<'a> Checker<'a>
         }
         if post.res != self.res { fail!(self, "C14", "resource-value", &[], "resources {:?}, expected {:?} (step {step})", post.res, self.res); }
         // conservation
-        let unknown_alive = self.insts.iter().filter(|t| t.created && !t.known && t.alive && !t.doomed && !matches!(t.origin, Origin::World(_) | Origin::EntityWorld(_))).count() as i64;
-        let unknown_maybe = self.insts.iter().filter(|t| t.created && !t.known && t.alive && t.doomed && !matches!(t.origin, Origin::World(_) | Origin::EntityWorld(_))).count() as i64;
+        let unknown_alive = self.insts.iter().filter(|t| t.created && !t.known && t.alive && !t.doomed && !t.limbo && !matches!(t.origin, Origin::World(_) | Origin::EntityWorld(_))).count() as i64;
+        let unknown_maybe = self.insts.iter().filter(|t| t.created && !t.known && t.alive && (t.doomed || t.limbo) && !matches!(t.origin, Origin::World(_) | Origin::EntityWorld(_))).count() as i64;
         let lo = unknown_alive + self.sys.extra_entities_lo();
         let hi = unknown_alive + unknown_maybe + self.sys.extra_entities_hi();
         if post.excess_entities > hi
